@@ -78,7 +78,7 @@ def scale_xyz(mesh : Mesh, fx : float = 1., fy : float = 1., fz : float = 1., or
         Mesh: the scaled mesh.
     """
     if orig is None:
-        orig = mesh.vertices[0]
+        orig = Vec.zeros(3)
     for i in mesh.id_vertices:
         Pi = mesh.vertices[i]
         mesh.vertices[i] = orig + Vec( fx*(Pi.x - orig.x), fy*(Pi.y - orig.y), fz *(Pi.z - orig.z))
